@@ -231,8 +231,8 @@ fn run_sems(t: &dyn Table, sems: &[Sem]) -> Vec<OpRow> {
 }
 
 /// Violated facts of the operations' meaning on a (possibly tampered) main matrix. Tags:
-/// `in-wit:<mode>`, `in-zero:<mode>`, `in-chain:<mode>`, `perm`, `bit`, `bit2`, `bitprod`,
-/// `sum-start`, `sum-step`.
+/// `bit-range`, `bit2-range` (a direction cell of a Merkle row outside {0,1}), `in-wit:<mode>`,
+/// `in-zero:<mode>`, `in-chain:<mode>`, `perm`, `bit`, `bit2`, `bitprod`, `sum-start`, `sum-step`.
 pub fn judge(t: &dyn Table, c: &Cols, sems: &[Sem], main: &[Vec<u64>]) -> Vec<(usize, String)> {
     let l = t.layout();
     let p = l.modulus;
@@ -242,6 +242,16 @@ pub fn judge(t: &dyn Table, c: &Cols, sems: &[Sem], main: &[Vec<u64>]) -> Vec<(u
     for (r, s) in sems.iter().enumerate() {
         let row = &main[r];
         let mode = if s.merkle { "merkle" } else { "sponge" };
+        // a direction "bit" outside {0,1} is not a Merkle step, whatever else the row holds (first fact of the
+        // row: it names the class of a coordinated selector forgery, see `forge_selector`)
+        if s.merkle {
+            if row[c.bit] > 1 {
+                facts.push((r, "bit-range".into()));
+            }
+            if l.arity4() && row[c.extra[0]] > 1 {
+                facts.push((r, "bit2-range".into()));
+            }
+        }
         for limb in 0..l.we {
             let pp = phys(&l, s, limb);
             for d in 0..l.d {
@@ -319,6 +329,20 @@ pub fn accept(t: &dyn Table, main: &[Vec<u64>], prep: &[Vec<u64>]) -> Option<(Op
     Some((fail, bus))
 }
 
+/// every failing (row, constraint index) of the table
+pub fn failing(t: &dyn Table, main: &[Vec<u64>], prep: &[Vec<u64>]) -> Vec<(usize, usize)> {
+    let h = main.len();
+    let mut out = vec![];
+    for r in 0..h {
+        let n = (r + 1) % h;
+        let tr = if r + 1 < h { 1 } else { 0 };
+        if let Some((cons, _)) = t.eval(tr, &main[r], &main[n], &prep[r], &prep[n]) {
+            out.extend(cons.iter().enumerate().filter(|(_, x)| **x != 0).map(|(ci, _)| (r, ci)));
+        }
+    }
+    out
+}
+
 /// kind of the `k`-th interaction of a row: 0 input send, 1 output receive, 2 index / bit lookups
 fn inter_kind(l: &Layout, k: usize) -> usize {
     let n_in = if l.compact() { l.re } else { l.we };
@@ -338,6 +362,8 @@ pub fn class_of(l: &Layout, facts: &[(usize, String)]) -> String {
         "in-zero:merkle" | "in-zero:sponge" => "new-start-unfed-limb-free",
         "in-chain:merkle" => "merkle-placement-unenforced",
         "in-chain:sponge" => "sponge-chaining-unenforced",
+        "bit-range" => "mmcs_bit-range-unenforced",
+        "bit2-range" => "mmcs_bit2-range-unenforced",
         "bit" => "mmcs_bit-unbound",
         "bit2" => "mmcs_bit2-unbound",
         "bitprod" => "bit-product-unenforced",
@@ -378,6 +404,279 @@ fn rechain(t: &dyn Table, c: &Cols, sems: &[Sem], main: &mut [Vec<u64>], from: u
         }
         r += 1;
     }
+}
+
+// ---------------------------------------------------------------------------------------------
+// Coordinated selector forgeries.
+//
+// A single-cell change of a direction cell to a value outside {0,1} is rejected by the placement gates
+// whatever happens to the cell's own range check, so single-cell tampering cannot see a lost range check.
+// The forgery a malicious prover would submit is coordinated: for a selector-like prover cell X of the row
+// (arity 2: `mmcs_bit`; arity 4: `mmcs_bit`, `mmcs_bit2`, the product helper `mmcs_bit_x_bit2`, or both bits)
+// and a value t, every OTHER prover cell of the row is solved so that every constraint except X's own check
+// (booleanity of a bit; the tie `prod = b0·b1` of the helper) holds:
+//   * the dependent helper `prod = b0·b1` (bits forged),
+//   * the position weights `h` (arity 4: `(1−b0−b1+prod, b0−prod, b1−prod, prod)`, arity 2: `(1−b0, b0)`): every
+//     chunk / half whose weight is non-zero receives the running digest (chained slots only: a CTL-loaded slot
+//     has `merkle_chain_sel = 0`),
+//   * the row's permutation block is recomputed,
+//   * the accumulator cell follows its recurrence with the forged values (`4·prev + b0 + 2·b1`, `2·prev + b0`),
+//   * the rows after it are re-chained and re-accumulated honestly.
+// On a chain-start row no placement / accumulator gate is live: the forgery is the cell (and the helper) alone.
+// The real AIR must reject the result; the decoder judges the relation.
+
+#[derive(Clone, Copy, Debug, PartialEq)]
+pub enum SelCell {
+    Bit,
+    Bit2,
+    Prod,
+    BothBits,
+}
+
+impl SelCell {
+    fn name(&self) -> &'static str {
+        match self {
+            SelCell::Bit => "mmcs_bit",
+            SelCell::Bit2 => "mmcs_bit2",
+            SelCell::Prod => "mmcs_bit_x_bit2",
+            SelCell::BothBits => "mmcs_bit+mmcs_bit2",
+        }
+    }
+}
+
+pub fn sel_cells(l: &Layout) -> Vec<SelCell> {
+    if l.arity4() { vec![SelCell::Bit, SelCell::Bit2, SelCell::Prod, SelCell::BothBits] } else { vec![SelCell::Bit] }
+}
+
+fn subm(a: u64, b: u64, p: u64) -> u64 {
+    addm(a, p - b % p, p)
+}
+
+/// Small set of interesting non-boolean values: 2, 3, −1, 1/2 (so that `2t = 1`), −2, random.
+pub fn forged_value(rng: &mut Rng, p: u64) -> u64 {
+    match rng.below(7) {
+        0 | 1 => 2,
+        2 => 3,
+        3 => p - 1,
+        4 => (p + 1) / 2,
+        5 => p - 2,
+        _ => 2 + rng.below(p - 2),
+    }
+}
+
+/// Overwrite row `r` of `main` with the coordinated forgery of `cell` (see above). Returns a description
+/// (forged control cells, position weights, chunks that received the digest).
+pub fn forge_selector(t: &dyn Table, c: &Cols, sems: &[Sem], main: &mut [Vec<u64>], r: usize, cell: SelCell, tv: u64, uv: u64) -> Value {
+    let l = t.layout();
+    let p = l.modulus;
+    let s = &sems[r];
+    let a4 = l.arity4();
+    let mut b0 = main[r][c.bit];
+    let mut b1 = if a4 { main[r][c.extra[0]] } else { 0 };
+    #[allow(unused_assignments)]
+    let mut pr = if a4 { main[r][c.extra[1]] } else { 0 };
+    match cell {
+        SelCell::Bit => {
+            b0 = tv;
+            pr = mulm(b0, b1, p);
+        }
+        SelCell::Bit2 => {
+            b1 = tv;
+            pr = mulm(b0, b1, p);
+        }
+        SelCell::Prod => pr = tv,
+        SelCell::BothBits => {
+            b0 = tv;
+            b1 = uv;
+            pr = mulm(b0, b1, p);
+        }
+    }
+    main[r][c.bit] = b0;
+    if a4 {
+        main[r][c.extra[0]] = b1;
+        main[r][c.extra[1]] = pr;
+    }
+    let cont = r > 0 && s.merkle && !s.new_start;
+    let h: Vec<u64> = if a4 {
+        vec![addm(subm(subm(1, b0, p), b1, p), pr, p), subm(b0, pr, p), subm(b1, pr, p), pr]
+    } else {
+        vec![subm(1, b0, p), b0]
+    };
+    let mut filled = vec![];
+    if cont {
+        for (k, hk) in h.iter().enumerate() {
+            if *hk == 0 {
+                continue;
+            }
+            let n = if a4 { l.ce } else { l.re };
+            let mut any = false;
+            for slot in 0..n {
+                // the slot's Merkle selector: arity 4 per physical slot, arity 2 per digest limb (gates both halves)
+                let ctl = if a4 { s.src[k * n + slot] == Src::Wit } else { s.src[slot] == Src::Wit };
+                if ctl {
+                    continue;
+                }
+                for d in 0..l.d {
+                    main[r][c.inputs[(k * n + slot) * l.d + d]] = main[r - 1][c.outputs[slot * l.d + d]];
+                }
+                any = true;
+            }
+            if any {
+                filled.push(k);
+            }
+        }
+        t.refill(&mut main[r]);
+        let prev = main[r - 1][c.sum];
+        main[r][c.sum] = if a4 { addm(addm(mulm(prev, 4, p), b0, p), mulm(2, b1, p), p) } else { addm(mulm(prev, 2, p), b0, p) };
+    }
+    rechain(t, c, sems, main, r + 1, true, true);
+    json!({"kind": format!("coordinated:{}", cell.name()), "row": r, "row_kind": if cont { "continuation" } else { "chain-start" },
+           "forged_ctl_cells": {"mmcs_bit": b0, "mmcs_bit2": b1, "mmcs_bit_x_bit2": pr, "mmcs_index_sum": main[r][c.sum]},
+           "position_weights": h, "digest_written_to_chunks": filled,
+           "forged_row_inputs": c.inputs.iter().map(|i| main[r][*i]).collect::<Vec<_>>()})
+}
+
+type Bus = Vec<(usize, usize, Vec<u64>, u64)>;
+
+/// live bus tuples (row, position) that differ between two traces
+fn changed_tuples(honest: &Bus, other: &Bus) -> Vec<(usize, usize)> {
+    let hm: BTreeMap<(usize, usize), &(usize, usize, Vec<u64>, u64)> = honest.iter().map(|b| ((b.0, b.1), b)).collect();
+    let tm: BTreeMap<(usize, usize), &(usize, usize, Vec<u64>, u64)> = other.iter().map(|b| ((b.0, b.1), b)).collect();
+    let mut out = vec![];
+    for (k, b) in hm.iter() {
+        if tm.get(k).map(|x| (&x.2, x.3)) != Some((&b.2, b.3)) {
+            out.push(*k);
+        }
+    }
+    for k in tm.keys() {
+        if !hm.contains_key(k) {
+            out.push(*k);
+        }
+    }
+    out
+}
+
+/// One coordinated forgery on an honest trace: build it, run the real AIR on every window, judge it with the
+/// decoder. Accepted = every constraint of every window vanishes and the only live bus tuples that moved are
+/// output receives (the digests after the forged row), the accumulator send (arity 2) and the forged cell's own
+/// direction-bit lookup on the forged row (arity 4: it carries the forged value; the witness it reads is the
+/// prover's) — never an input send, never another row's bit lookup. Returns 1 if the AIR was evaluated.
+#[allow(clippy::too_many_arguments)]
+pub fn forge_case(t: &dyn Table, c: &Cols, sems: &[Sem], main: &[Vec<u64>], prep: &[Vec<u64>], honest_bus: &Bus, r: usize, cell: SelCell, tv: u64, uv: u64,
+                  desc: &dyn Fn(Value) -> Value, hist: &mut BTreeMap<String, u64>, violations: &mut Vec<Value>) -> usize {
+    let l = t.layout();
+    let mut m2: Vec<Vec<u64>> = main.to_vec();
+    let what = forge_selector(t, c, sems, &mut m2, r, cell, tv, uv);
+    if m2 == main {
+        return 0; // the "forgery" is the honest row (product helper set to its own value)
+    }
+    let facts = judge(t, c, sems, &m2);
+    let Some((fail, bus)) = accept(t, &m2, prep) else { return 0 };
+    let n_in = if l.compact() { l.re } else { l.we };
+    let own: Vec<usize> = match cell {
+        SelCell::Bit => vec![n_in + l.re],
+        SelCell::Bit2 => vec![n_in + l.re + 1],
+        SelCell::Prod => vec![],
+        SelCell::BothBits => vec![n_in + l.re, n_in + l.re + 1],
+    };
+    let bus_ok = changed_tuples(honest_bus, &bus).iter().all(|(row, k)| match inter_kind(&l, *k) {
+        0 => false,
+        1 => *row >= r,
+        _ => !l.arity4() || (*row == r && own.contains(k)),
+    });
+    let accepted = fail.is_none() && bus_ok;
+    let valid = facts.is_empty();
+    let verdict = match (accepted, valid) {
+        (true, true) => "accepted-valid",
+        (true, false) => "ACCEPTED-INVALID",
+        (false, true) => "rejected-valid",
+        (false, false) => if fail.is_some() { "rejected-invalid" } else { "rejected-invalid(bus)" },
+    };
+    let posn = if r > 0 && sems[r].merkle && !sems[r].new_start { "cont" } else { "first" };
+    *hist.entry(format!("forge.{}.{}.{}.{}", mode_name(&l), cell.name(), posn, verdict)).or_default() += 1;
+    if fail.is_some() {
+        // self-check of the forgery: it is coordinated iff the ONLY failing constraints of the whole table are the
+        // forged cell's own checks on the forged row (constraint 0 `assert_bool(mmcs_bit)`; arity 4: 1
+        // `assert_bool(mmcs_bit2)`, 2 the product tie)
+        let own_cons: Vec<usize> = match cell {
+            SelCell::Bit => vec![0],
+            SelCell::Bit2 => vec![1],
+            SelCell::Prod => vec![2],
+            SelCell::BothBits => vec![0, 1],
+        };
+        let fl = failing(t, &m2, prep);
+        let only_own = fl.iter().all(|(row, ci)| *row == r && own_cons.contains(ci));
+        *hist.entry(format!("forge.selfcheck.{}.{}", mode_name(&l), if only_own { "rejected-only-by-own-check" } else { "rejected-by-other-constraints-too" })).or_default() += 1;
+    }
+    if accepted && !valid {
+        violations.push(json!({"property":"C11","kind":"row-accepted-but-relation-fails","class": class_of(&l, &facts),
+            "facts": facts.iter().take(4).map(|(r, f)| format!("row{r}:{f}")).collect::<Vec<_>>(),
+            "replay": desc(what)}));
+    }
+    1
+}
+
+fn ops_desc(l: &Layout, ops: &[OpRow], extra: Value) -> Value {
+    json!({"layout": l.name(), "ops": ops.iter().map(|o| json!({"ns": o.new_start, "mp": o.merkle, "bit": o.bit, "bit2": o.bit2, "sum": o.sum, "in": o.input, "in_ctl": o.in_ctl, "out_ctl": o.out_ctl, "sum_ctl": o.sum_ctl})).collect::<Vec<_>>(), "tamper": extra})
+}
+
+/// Systematic sweep, every run, every layout with a Merkle mode: a three-row Merkle chain `start, step(b0,b1),
+/// step` for every honest position of the middle row; on the start row and on the middle row every selector
+/// cell is forged with every value of a fixed set (pairs for both bits), coordinated as in `forge_selector`.
+pub fn selector_sweep(tabs: &[Box<dyn Table>], hist: &mut BTreeMap<String, u64>, violations: &mut Vec<Value>) -> usize {
+    let mut evals = 0;
+    for t in tabs.iter().filter(|t| supported(&t.layout())) {
+        let t = t.as_ref();
+        let l = t.layout();
+        let c = t.cols();
+        let p = l.modulus;
+        let a4 = l.arity4();
+        let positions: Vec<(bool, bool)> = if a4 { vec![(false, false), (true, false), (false, true), (true, true)] } else { vec![(false, false), (true, false)] };
+        for (pb0, pb1) in positions {
+            let mk = |first: bool, last: bool, b0: bool, b1: bool, salt: usize| -> Sem {
+                let mut src = vec![Src::Free; l.we];
+                if a4 {
+                    let pos = b0 as usize + 2 * b1 as usize;
+                    for limb in 0..l.we {
+                        src[limb] = if first { Src::Wit } else if limb / l.ce == pos { Src::Chain(limb % l.ce) } else { Src::Free };
+                    }
+                } else {
+                    for limb in 0..l.re {
+                        src[limb] = if first { Src::Wit } else { Src::Chain(limb) };
+                    }
+                }
+                Sem { new_start: first, merkle: true, bit: b0, bit2: b1, src, vals: (0..l.we).map(|i| (0..l.d).map(|d| (5 + salt * 1000 + 11 * i + d) as u64).collect()).collect(),
+                      start_sum: 0, sum_ctl: last && !a4, out_ctl: vec![last; l.re] }
+            };
+            let sems = vec![mk(true, false, false, false, 1), mk(false, false, pb0, pb1, 2), mk(false, true, true, false, 3)];
+            let ops = run_sems(t, &sems);
+            let Some((main, prep)) = t.build(&ops, 4) else { continue };
+            let Some((fail, bus)) = accept(t, &main, &prep) else { continue };
+            if fail.is_some() || !judge(t, &c, &sems, &main).is_empty() {
+                *hist.entry(format!("forge.sweep.{}.honest-not-accepted", l.name())).or_default() += 1;
+                continue;
+            }
+            let desc = |extra: Value| ops_desc(&l, &ops, extra);
+            let vals = [2u64, 3, p - 1, (p + 1) / 2];
+            for r in [0usize, 1] {
+                for cell in sel_cells(&l) {
+                    for (vi, tv) in vals.iter().enumerate() {
+                        let uvs: Vec<u64> = if cell == SelCell::BothBits { vec![vals[(vi + 1) % vals.len()], *tv] } else { vec![0] };
+                        for uv in uvs {
+                            evals += forge_case(t, &c, &sems, &main, &prep, &bus, r, cell, *tv, uv, &desc, hist, violations);
+                        }
+                    }
+                    if cell == SelCell::Prod {
+                        // the helper also has boolean wrong values
+                        for tv in [0u64, 1] {
+                            evals += forge_case(t, &c, &sems, &main, &prep, &bus, r, cell, tv, 0, &desc, hist, violations);
+                        }
+                    }
+                }
+            }
+        }
+    }
+    evals
 }
 
 pub fn chain_case(t: &dyn Table, rng: &mut Rng, tampers: usize, hist: &mut BTreeMap<String, u64>, violations: &mut Vec<Value>) -> CaseOut {
@@ -516,6 +815,18 @@ pub fn chain_case(t: &dyn Table, rng: &mut Rng, tampers: usize, hist: &mut BTree
         } else if fail.is_some() && valid && observable {
             violations.push(json!({"property":"C11","kind":"row-rejected-but-relation-holds","class": format!("rejects-valid-row:poseidon:{}:{}", mode_name(&l), name),
                 "replay": desc(json!({"kind": name, "row": r, "delta": delta, "failed": format!("{:?}", fail)}))}));
+        }
+    }
+    // coordinated selector forgeries (see `forge_selector`): random Merkle row, selector cell, value
+    let merkle_rows: Vec<usize> = (0..nreal).filter(|r| sems[*r].merkle).collect();
+    if !merkle_rows.is_empty() {
+        let cells = sel_cells(&l);
+        for _ in 0..tampers {
+            let r = merkle_rows[rng.usize(merkle_rows.len())];
+            let cell = cells[rng.usize(cells.len())];
+            let tv = if cell == SelCell::Prod && rng.chance(1, 3) { rng.below(2) } else { forged_value(rng, p) };
+            let uv = if rng.chance(1, 3) { rng.below(2) } else { forged_value(rng, p) };
+            out.evals += forge_case(t, &c, &sems, &main, &prep, &honest_bus, r, cell, tv, uv, &desc, hist, violations);
         }
     }
     out
